@@ -18,6 +18,8 @@ import traceback
 VERIF_DIR = os.path.dirname(os.path.dirname(os.path.abspath(__file__)))
 REPO = os.environ.get('VERIF_REPO', '/repo')
 DEPS = os.path.join(VERIF_DIR, '.deps')
+# mutation / seeded-patch runs redirect their outputs so committed evidence is never clobbered
+OUT_DIR = os.environ.get('VERIF_OUT', VERIF_DIR)
 
 
 class HarnessError(Exception):
@@ -248,7 +250,7 @@ def load_known():
 
 
 def write_replay(prop, key, what, case):
-    d = os.path.join(VERIF_DIR, 'replays', prop)
+    d = os.path.join(OUT_DIR, 'replays', prop)
     os.makedirs(d, exist_ok=True)
     body = {'property': prop, 'key': key, 'what': what, 'case': to_jsonable(case)}
     name = hashlib.sha1(canon(body).encode()).hexdigest()[:16] + '.json'
@@ -270,7 +272,7 @@ def finish(ctx, wall_extra=None):
         path = write_replay(ctx.prop, key, ent['what'], ent['case'])
         violations.append((key, ent, path))
     for key, ent, path in violations:
-        print('VIOLATION property=%s replay=%s' % (ctx.prop, os.path.relpath(path, VERIF_DIR)))
+        print('VIOLATION property=%s replay=%s' % (ctx.prop, os.path.relpath(path, OUT_DIR)))
         print('  key=%s count=%d what=%s' % (key, ent['count'], ent['what']))
     cov = {
         'evaluations': ctx.evaluations,
@@ -297,8 +299,8 @@ def finish(ctx, wall_extra=None):
         'violations': len(violations),
         'known_findings_hit': sorted(k for k in ctx.failures if k in open_keys),
     }
-    os.makedirs(os.path.join(VERIF_DIR, 'evidence'), exist_ok=True)
-    with open(os.path.join(VERIF_DIR, 'evidence', ctx.prop + '.json'), 'w') as fh:
+    os.makedirs(os.path.join(OUT_DIR, 'evidence'), exist_ok=True)
+    with open(os.path.join(OUT_DIR, 'evidence', ctx.prop + '.json'), 'w') as fh:
         json.dump(to_jsonable(ev), fh, indent=1, sort_keys=True)
     print('%s %s seed=%d: %d evaluations, %d distinct non-trivial, %d violation bucket(s), '
           '%.1fs' % (ctx.prop, ctx.tier, ctx.seed, ctx.evaluations, len(ctx.nontrivial),
@@ -311,3 +313,88 @@ def harness_exit(exc):
     sys.stderr.write('HARNESS-ERROR: %r\n' % (exc,))
     traceback.print_exc()
     sys.exit(2)
+
+
+# ------------------------------------------------------------------------------------------
+# process-level sharding
+
+def _export(ctx):
+    return {'evaluations': ctx.evaluations, 'nontrivial': ctx.nontrivial, 'hist': ctx.hist,
+            'samples': ctx.samples, 'failures': ctx.failures, 'excluded': ctx.excluded,
+            'inconclusive': ctx.inconclusive, 'extra': ctx.extra}
+
+
+def _merge(ctx, exp):
+    ctx.evaluations += exp['evaluations']
+    ctx.nontrivial |= exp['nontrivial']
+    for k, v in exp['hist'].items():
+        ctx.hist[k] = ctx.hist.get(k, 0) + v
+    for s in exp['samples']:
+        if len(ctx.samples) < ctx.MAX_SAMPLES:
+            ctx.samples.append(s)
+    for k, ent in exp['failures'].items():
+        if k in ctx.failures:
+            ctx.failures[k]['count'] += ent['count']
+        else:
+            ctx.failures[k] = ent
+    for k, v in exp['excluded'].items():
+        ctx.excluded[k] = ctx.excluded.get(k, 0) + v
+    ctx.inconclusive += exp['inconclusive']
+    for k, v in exp['extra'].items():
+        if isinstance(v, (int, float)) and isinstance(ctx.extra.get(k), (int, float)):
+            ctx.extra[k] += v
+        elif isinstance(v, (set, frozenset)) and isinstance(ctx.extra.get(k), (set, frozenset)):
+            ctx.extra[k] = set(ctx.extra[k]) | set(v)
+        else:
+            ctx.extra.setdefault(k, v)
+
+
+def _shard_entry(args):
+    modname, funcname, prop, tier, seed, level, job = args
+    import importlib
+    sub = Ctx(prop, tier, seed, level)
+    try:
+        func = getattr(importlib.import_module(modname), funcname)
+        func(sub, job)
+    except Violation as v:
+        sub.fail(v.key, v.what, v.case)
+    except HarnessError as exc:
+        return {'harness_error': repr(exc)}
+    except Exception as exc:
+        return {'harness_error': repr(exc) + '\n' + traceback.format_exc()}
+    return _export(sub)
+
+
+def parallel(ctx, func, jobs, procs=None):
+    """Run func(sub_ctx, job) for every job in worker processes (fork) and merge the results.
+
+    Each job gets its own seed: ctx.seed * 1000 + index.
+    """
+    import multiprocessing as mp
+    if not jobs:
+        return
+    procs = procs or min(len(jobs), int(os.environ.get('VERIF_PROCS', '16')))
+    args = [(func.__module__, func.__name__, ctx.prop, ctx.tier, ctx.seed * 1000 + i, ctx.level, job)
+            for i, job in enumerate(jobs)]
+    if procs <= 1:
+        results = [_shard_entry(a) for a in args]
+    else:
+        mpctx = mp.get_context('fork')
+        with mpctx.Pool(procs, maxtasksperchild=None) as pool:
+            results = pool.map(_shard_entry, args, chunksize=1)
+    for res in results:
+        if 'harness_error' in res:
+            raise HarnessError('worker failed: ' + res['harness_error'])
+        _merge(ctx, res)
+
+
+def lib_frame(exc):
+    """(exception type, innermost pynetdicom2 frame) - bucket key for unexpected exceptions."""
+    tb = exc.__traceback__
+    where = '?'
+    while tb is not None:
+        fn = tb.tb_frame.f_code.co_filename
+        if os.sep + 'pynetdicom2' + os.sep in fn:
+            where = '%s.%s' % (os.path.basename(fn)[:-3], tb.tb_frame.f_code.co_name)
+        tb = tb.tb_next
+    return '%s@%s' % (type(exc).__name__, where)
